@@ -51,9 +51,12 @@ func (b c01MemBackend) Close()                               {}
 type c01FileBackend struct {
 	fs    *certmagic.FileStorage
 	dir   string
-	log   doubles.Log
+	log   *doubles.Log
 	mu    sync.Mutex
 	owner map[string]string // lock file -> instance
+	// the lock file a dead holder left behind (leaveLockFile): not a lock anybody holds as long as it is untouched
+	deadName    string
+	deadContent []byte
 }
 
 func c01NewFileBackend() (*c01FileBackend, error) {
@@ -61,7 +64,7 @@ func c01NewFileBackend() (*c01FileBackend, error) {
 	if err != nil {
 		return nil, err
 	}
-	return &c01FileBackend{fs: &certmagic.FileStorage{Path: dir}, dir: dir, owner: map[string]string{}}, nil
+	return &c01FileBackend{fs: &certmagic.FileStorage{Path: dir}, dir: dir, owner: map[string]string{}, log: &doubles.Log{}}, nil
 }
 
 func (b *c01FileBackend) Close() { os.RemoveAll(b.dir) }
@@ -74,7 +77,7 @@ func (b *c01FileBackend) leaveLockFile(name, kind string) error {
 	}
 	var content []byte
 	switch kind {
-	case "empty":
+	case "empty", "empty-fresh":
 	case "stale":
 		ts := time.Now().Add(-time.Hour)
 		content, _ = json.Marshal(map[string]any{"created": ts, "updated": ts})
@@ -84,9 +87,19 @@ func (b *c01FileBackend) leaveLockFile(name, kind string) error {
 	default:
 		return fmt.Errorf("unknown crash_lock kind %q", kind)
 	}
-	return os.WriteFile(p, content, 0o644)
+	b.deadName, b.deadContent = filepath.Base(p), content
+	if err := os.WriteFile(p, content, 0o644); err != nil {
+		return err
+	}
+	if kind == "empty" || kind == "stale" {
+		// the holder died long ago (an empty lock file is given up only once its modification time is older
+		// than the staleness bound; "empty-fresh": it has just died)
+		old := time.Now().Add(-time.Hour)
+		return os.Chtimes(p, old, old)
+	}
+	return nil
 }
-func (b *c01FileBackend) GetLog() *doubles.Log { return &b.log }
+func (b *c01FileBackend) GetLog() *doubles.Log { return b.log }
 func (b *c01FileBackend) LockID(name string) string {
 	return filepath.Base(certmagic.VerifLocksFileLockPath(b.fs, name))
 }
@@ -119,6 +132,11 @@ func (b *c01FileBackend) HeldLocks() []string {
 	var out []string
 	for _, e := range ents {
 		if strings.HasSuffix(e.Name(), ".lock") {
+			if e.Name() == b.deadName {
+				if c, err := os.ReadFile(filepath.Join(b.dir, "locks", e.Name())); err == nil && string(c) == string(b.deadContent) {
+					continue // nobody asked for this lock: the dead holder's file is still lying there
+				}
+			}
 			out = append(out, e.Name())
 		}
 	}
